@@ -235,6 +235,10 @@ func c05Variants(h *hctx) []timedCase {
 					r.get(0)
 				}
 				ctx, cancel := context.WithCancel(context.Background())
+				if name == "deadline" {
+					cancel()
+					ctx, cancel = context.WithTimeout(context.Background(), 1500*time.Microsecond)
+				}
 				defer cancel()
 				var g *bufOp
 				g = r.launch([]int{3, 0}, func(o *bufOp) []int {
@@ -264,7 +268,7 @@ func c05Variants(h *hctx) []timedCase {
 					if !g.returned() {
 						r.instant([]int{15, 0}, []int{9, 1})
 						h.count("get_never_woke", 1)
-						if name == "cancel" || name == "closeb" {
+						if name == "cancel" || name == "closeb" || name == "deadline" {
 							// the model has no caller context: state the lost wake-up directly
 							h.line("MONITOR C05 Get still parked %v after its context was cancelled / its buffer closed (%s): lost wake-up", inject+400*time.Millisecond, id)
 						}
@@ -299,6 +303,12 @@ func c05Variants(h *hctx) []timedCase {
 		mk("put", func(r *bufRun, _ context.CancelFunc) { r.putAsync(1) }),
 		mk("put-second", func(r *bufRun, _ context.CancelFunc) { r.putAsync(2) }),
 		mk("cancel", func(r *bufRun, cancel context.CancelFunc) { cancel() }),
+		mk("putnil", func(r *bufRun, _ context.CancelFunc) {
+			// the value that arrives is nil: a value like any other
+			o := r.launch([]int{0, 1, -1}, func(*bufOp) []int { return errOut(r.b.Put(context.Background(), nil)) })
+			<-o.done
+		}),
+		mk("deadline", func(r *bufRun, _ context.CancelFunc) { time.Sleep(2 * time.Millisecond) }),
 		mk("closeb", func(r *bufRun, _ context.CancelFunc) {
 			o := r.launch([]int{11}, func(*bufOp) []int { return errOut(r.b.Close()) })
 			<-o.done
